@@ -239,17 +239,85 @@ theorem descendTop_sibs {n : Nat} {k : Key} {l r : Trie} (hw : WF n (node [] l r
     · simp at x; subst x; exact ⟨hw.1, hkeys.1⟩
     · exact x
 
+theorem descend_toList {k : Key} : ∀ (c : Trie) (acc : List (Trie × Bool)) (kv : Key × Bytes),
+    kv ∈ (descend k c acc).1.toList → kv ∈ c.toList
+  | .leaf _ _, _, _, h => h
+  | .node p l r, acc, kv, h => by
+    unfold descend at h
+    by_cases h1 : p ++ [false] <+: k
+    · rw [if_pos h1] at h; exact mem_toList_node.mpr (Or.inl (descend_toList l _ kv h))
+    · rw [if_neg h1] at h
+      by_cases h2 : p ++ [true] <+: k
+      · rw [if_pos h2] at h; exact mem_toList_node.mpr (Or.inr (descend_toList r _ kv h))
+      · rw [if_neg h2] at h; exact h
+
+theorem descend_sibs_toList {k : Key} : ∀ (c : Trie) (acc : List (Trie × Bool)),
+    ∀ s ∈ (descend k c acc).2, s ∈ acc ∨ (∀ kv ∈ s.1.toList, kv ∈ c.toList)
+  | .leaf _ _, _, s, h => Or.inl h
+  | .node p l r, acc, s, h => by
+    unfold descend at h
+    by_cases h1 : p ++ [false] <+: k
+    · rw [if_pos h1] at h
+      rcases descend_sibs_toList l _ s h with x | x
+      · simp at x
+        rcases x with rfl | x
+        · exact Or.inr fun kv hkv => mem_toList_node.mpr (Or.inr hkv)
+        · exact Or.inl x
+      · exact Or.inr fun kv hkv => mem_toList_node.mpr (Or.inl (x kv hkv))
+    · rw [if_neg h1] at h
+      by_cases h2 : p ++ [true] <+: k
+      · rw [if_pos h2] at h
+        rcases descend_sibs_toList r _ s h with x | x
+        · simp at x
+          rcases x with rfl | x
+          · exact Or.inr fun kv hkv => mem_toList_node.mpr (Or.inl hkv)
+          · exact Or.inl x
+        · exact Or.inr fun kv hkv => mem_toList_node.mpr (Or.inr (x kv hkv))
+      · rw [if_neg h2] at h; exact Or.inl h
+
+/-- everything `descendTop` returns is made of leaves of the tree -/
+theorem descendTop_toList {k : Key} {l r : Trie} :
+    (∀ kv ∈ (descendTop k l r).1.toList, kv ∈ (node [] l r).toList) ∧
+    (∀ s ∈ (descendTop k l r).2, ∀ kv ∈ s.1.toList, kv ∈ (node [] l r).toList) := by
+  unfold descendTop
+  split
+  · refine ⟨fun kv h => mem_toList_node.mpr (Or.inl (descend_toList l _ kv h)), fun s hs kv hkv => ?_⟩
+    rcases descend_sibs_toList l _ s hs with x | x
+    · simp at x; subst x; exact mem_toList_node.mpr (Or.inr hkv)
+    · exact mem_toList_node.mpr (Or.inl (x kv hkv))
+  · refine ⟨fun kv h => mem_toList_node.mpr (Or.inr (descend_toList r _ kv h)), fun s hs kv hkv => ?_⟩
+    rcases descend_sibs_toList r _ s hs with x | x
+    · simp at x; subst x; exact mem_toList_node.mpr (Or.inl hkv)
+    · exact mem_toList_node.mpr (Or.inr (x kv hkv))
+
+/-- the sizes the strict verifier expects: node hashes of 32 bytes, leaf values of 32 bytes except the two reserved
+leaves (20 bytes) -/
+def WellSized (H4 : Bytes → Bytes → Bytes → Bytes → Bytes) (n : Nat) (S : KMap) : Prop :=
+  (∀ a b c d, (H4 a b c d).length = 32) ∧
+  ∀ k v, S k = some v → v.length = 32 ∨ (v.length = 20 ∧ (k = minKey n ∨ k = maxKey n))
+
+theorem valueLenOk_of_sub {H4 : Bytes → Bytes → Bytes → Bytes → Bytes} {n : Nat} {t : Trie} {S : KMap}
+    (h : t.Rep n S) (hz : WellSized H4 n S) (s : Trie) (hsub : ∀ kv ∈ s.toList, kv ∈ t.toList) (bm : Nat) :
+    valueLenOk n { key := encodeKey s.key, value := s.value H4, bitmask := bm } = true := by
+  cases s with
+  | node p a b => simp [valueLenOk, Trie.value, hz.1]
+  | leaf k v =>
+    have hS : S k = some v := (h.2 k v).mp (hsub _ (by simp [toList]))
+    rcases hz.2 k v hS with h32 | ⟨h20, hk⟩
+    · simp [valueLenOk, Trie.value, h32]
+    · rcases hk with rfl | rfl <;> simp [valueLenOk, Trie.value, Trie.key, h20]
+
 /-- **Completeness of the repaired verifier.** For every key length, every canonical tree holding the sentinels and every
 non-reserved key: the proof `GetMerkleProof` produces for the key verifies against the tree's root — as a membership
 proof with the stored value if the key is present, as a non-membership proof if it is absent. -/
-theorem verifyFixed_complete (H : Bytes → Bytes) (H4 : Bytes → Bytes → Bytes → Bytes → Bytes) {n : Nat} (hn : 0 < n) {t : Trie} {S : KMap}
-    (h : t.Rep n S) (hs : S.HasSentinels n) (userKey value : Bytes)
+theorem verifyFixed_complete (strict : Bool) (H : Bytes → Bytes) (H4 : Bytes → Bytes → Bytes → Bytes → Bytes) {n : Nat} (hn : 0 < n) {t : Trie} {S : KMap}
+    (h : t.Rep n S) (hs : S.HasSentinels n) (hz : strict = true → WellSized H4 n S) (userKey value : Bytes)
     (hres : keyOfBytes n (H userKey) ≠ rootKey n ∧ keyOfBytes n (H userKey) ≠ minKey n ∧
       keyOfBytes n (H userKey) ≠ maxKey n) :
     (S (keyOfBytes n (H userKey)) = some (H value) →
-      verifyFixed H H4 n userKey value true (t.value H4) (prove H4 t (keyOfBytes n (H userKey))) = .accept) ∧
+      verifyFixed strict H H4 n userKey value true (t.value H4) (prove H4 t (keyOfBytes n (H userKey))) = .accept) ∧
     (S (keyOfBytes n (H userKey)) = none →
-      verifyFixed H H4 n userKey value false (t.value H4) (prove H4 t (keyOfBytes n (H userKey))) = .accept) := by
+      verifyFixed strict H H4 n userKey value false (t.value H4) (prove H4 t (keyOfBytes n (H userKey))) = .accept) := by
   have hk : (keyOfBytes n (H userKey)).length = n := keyOfBytes_length n _
   obtain ⟨k, hkd⟩ : ∃ k, keyOfBytes n (H userKey) = k := ⟨_, rfl⟩
   rw [hkd] at hres hk ⊢
@@ -270,12 +338,20 @@ theorem verifyFixed_complete (H : Bytes → Bytes) (H4 : Bytes → Bytes → Byt
       decodeKey_encodeKey _ _ rfl hstopne
     have hs0 := hsibs (s0, side) (by rw [hacc]; simp)
     have hdecs0 : decodeKey (encodeKey s0.key) = s0.key := decodeKey_encodeKey _ _ rfl hs0.2
-    have hvalid : ((prove H4 (node [] l r) k).all fun p => validNodeKey n p.key) = true := by
-      simp only [prove, List.all_cons, Bool.and_eq_true, List.all_eq_true, List.mem_map]
-      refine ⟨validNodeKey_encodeKey hstopne (key_length_le hwf), ?_⟩
-      rintro p ⟨s, hs', rfl⟩
-      have := hsibs s hs'
-      exact validNodeKey_encodeKey this.2 (key_length_le this.1)
+    have hlist := descendTop_toList (k := k) (l := l) (r := r)
+    have hvalid : ((prove H4 (node [] l r) k).all fun p => nodeOk strict n p) = true := by
+      simp only [prove, List.all_cons, Bool.and_eq_true, List.all_eq_true, List.mem_map, nodeOk, Bool.or_eq_true,
+        Bool.not_eq_true']
+      refine ⟨⟨validNodeKey_encodeKey hstopne (key_length_le hwf), ?_⟩, ?_⟩
+      · cases hst : strict
+        · exact Or.inl rfl
+        · exact Or.inr (valueLenOk_of_sub h (hz hst) _ hlist.1 0)
+      · rintro p ⟨s, hs', rfl⟩
+        have := hsibs s hs'
+        refine ⟨validNodeKey_encodeKey this.2 (key_length_le this.1), ?_⟩
+        cases hst : strict
+        · exact Or.inl rfl
+        · exact Or.inr (valueLenOk_of_sub h (hz hst) s.1 (hlist.2 s hs') _)
     -- the branch prefix
     have hgq : gcp (descendTop k l r).1.key s0.key = q := by
       cases side
